@@ -57,7 +57,9 @@ Inductive beh :=
 | ReturnsUnser             (* returns a value the result pipe cannot serialise *)
 | Raises (e : Z)           (* raises an Exception (kind e) *)
 | RaisesUnser (e : Z)      (* raises an Exception that cannot be serialised *)
-| RaisesBase (e : Z).      (* raises a BaseException: 1 SystemExit 2 KeyboardInterrupt 3 GeneratorExit *)
+| RaisesBase (e : Z)       (* raises a BaseException: 1 SystemExit 2 KeyboardInterrupt 3 GeneratorExit *)
+| Terminated (code : Z).   (* the termination signal handler runs inside the task: it sets
+                              common._should_have_exited and calls sys.exit(code) *)
 
 Inductive res := ROk (v : Z) | RFail (e : Z) | RBase (e : Z) | REnc.
 
@@ -67,6 +69,7 @@ Definition final_res (b : beh) : res :=
   | Returns v => ROk v
   | Raises e => RFail e
   | RaisesBase e => RBase e
+  | Terminated _ => RBase 1        (* never delivered: see task_escapes *)
   | ReturnsUnser | RaisesUnser _ => REnc
   end.
 Definition first_put_fails (b : beh) : bool :=
@@ -79,7 +82,9 @@ Record req := mk_req {
   q_t : Z;                    (* now() at acceptance *)
   q_beh : beh;
   q_syn : list (rcv Z);       (* successive receive calls on the SYN pipe; message = its type *)
-  q_mem : Z }.                (* mem_rss() after the task *)
+  q_mem : Z;                  (* mem_rss() after the task *)
+  q_term : bool }.            (* common._should_have_exited[0] when the task raises (a
+                                 termination request was already handled in this process) *)
 
 Inductive payload :=
 | PAckP (t pid : Z) (fd : option Z)
@@ -99,6 +104,8 @@ Inductive exit :=
 | XReturn (code : Z)     (* workloop returned code *)
 | XSysExit (code : Z)    (* SystemExit(code) left workloop *)
 | XAssert                (* AssertionError left workloop *)
+| XTaskExc (base : bool) (e : Z)   (* the task's exception re-raised (termination requested) *)
+| XTerminated (code : Z) (* SystemExit(code) of the termination handler left workloop *)
 | XStarved.              (* script exhausted: the real loop keeps polling *)
 
 Record cfg := mk_cfg {
@@ -164,6 +171,16 @@ Definition ready_events (c : cfg) (q : req) : list ev :=
 Definition pre (l : list ev) (t : list ev * exit * Z) : list ev * exit * Z :=
   let '(l', x, n) := t in (l ++ l', x, n).
 
+(* `except BaseException: if _should_have_exited[0]: raise` -- does the task's exception
+   leave workloop? *)
+Definition task_escapes (q : req) : option exit :=
+  match q_beh q with
+  | Terminated code => Some (XTerminated code)
+  | Raises e | RaisesUnser e => if q_term q then Some (XTaskExc false e) else None
+  | RaisesBase e => if q_term q then Some (XTaskExc true e) else None
+  | Returns _ | ReturnsUnser => None
+  end.
+
 (* events of accepting q and waiting for the SYN *)
 Definition accept_events (c : cfg) (q : req) : list ev :=
   [EInq; ENow; EPut (ack_msg c q)] ++ repeat ESyn (snd (syn_result c q)).
@@ -189,9 +206,13 @@ Fixpoint loop (c : cfg) (completed : Z) (ins : list (rcv req)) {struct ins}
         | SynAssert => (accept_events c q, XAssert, completed)
         | SynStarved => (accept_events c q, XStarved, completed)
         | SynTrue =>
-          if mem_exceeded (eff_maxmem c) (q_mem q)
-          then (accept_events c q ++ exec_events c q, XReturn EX_RECYCLE, completed + 1)
-          else pre (accept_events c q ++ exec_events c q) (loop c (completed + 1) rest)
+          match task_escapes q with
+          | Some x => (accept_events c q ++ [ERun (q_job q) (q_i q)], x, completed)
+          | None =>
+            if mem_exceeded (eff_maxmem c) (q_mem q)
+            then (accept_events c q ++ exec_events c q, XReturn EX_RECYCLE, completed + 1)
+            else pre (accept_events c q ++ exec_events c q) (loop c (completed + 1) rest)
+          end
         end
       end
     end
@@ -222,9 +243,9 @@ Definition workloop (c : cfg) (ins : list (rcv req))
 Definition do_exit_code (recorded : option Z) (exc : bool) : Z :=
   match recorded with Some c => c | None => if exc then EX_FAILURE else EX_OK end.
 Definition recorded_status (x : exit) : option Z :=
-  match x with XReturn c => Some c | _ => None end.
+  match x with XReturn c | XTerminated c => Some c | _ => None end.
 Definition left_by_exception (x : exit) : bool :=
-  match x with XAssert => true | _ => false end.
+  match x with XAssert | XTaskExc false _ => true | _ => false end.
 Definition call_status (x : exit) : Z := do_exit_code (recorded_status x) (left_by_exception x).
 
 (* ---- views of an event list *)
@@ -413,6 +434,8 @@ Definition ev_eqb (a b : ev) : bool :=
 Definition exit_eqb (a b : exit) : bool :=
   match a, b with
   | XReturn x, XReturn y | XSysExit x, XSysExit y => x =? y
+  | XTerminated x, XTerminated y => x =? y
+  | XTaskExc b x, XTaskExc b' y => Bool.eqb b b' && (x =? y)
   | XAssert, XAssert | XStarved, XStarved => true
   | _, _ => false
   end.
